@@ -40,7 +40,7 @@ KINDS = [k for k in gp.ALL_KINDS if k not in ('package_fn',)] + DISCARD * 3 + ['
 
 @st.composite
 def cases_(draw):
-    pkg = draw(gp.input_package(1, 3, sizes=(0, 1, 2, 3, 4, 5, 9, 10, 12, 14, 30, 101), types=['string', 'integer', 'number', 'date', 'boolean']))
+    pkg = draw(gp.input_package(1, 3, sizes=(0, 0, 0, 1, 2, 3, 4, 5, 9, 10, 12, 14, 30, 101), types=['string', 'integer', 'number', 'date', 'boolean']))
     prog = draw(gp.programs(1, 6, kinds=KINDS, pkg=pkg, favour_mutators=False))
     steps = prog['steps']
     for s in steps:
@@ -52,7 +52,9 @@ def cases_(draw):
             'oname': draw(st.sampled_from(gp.STREAM_FILE_NAMES)), 'onum': draw(st.sampled_from([2, 3, 10])),
             # fields carry titles; an unrelated dump with use_titles=True ran earlier in the same process (step instances
             # share nothing: the later, default dump still writes field names)
-            'titles': draw(st.booleans()), 'primer': draw(st.sampled_from([None, None, 'use_titles']))}
+            'titles': draw(st.booleans()), 'primer': draw(st.sampled_from([None, None, 'use_titles', 'older-dump'])),
+            # resource paths that differ only behind their first dot (data.2019.csv, data.2020.csv, ...)
+            'dotted_paths': draw(st.integers(0, 3)) == 0}
 
 
 def cases(tier):
@@ -80,8 +82,8 @@ def observer_spec(name, case=None):
     return {'k': name}
 
 
-def run(desc0, tables0, specs, ctx, tag, seq, extra_before=None, replace=None):
-    env = gp.Env(ctx, tag)
+def run(desc0, tables0, specs, ctx, tag, seq, extra_before=None, replace=None, env=None):
+    env = env or gp.Env(ctx, tag)
     steps = []
     for i, s in enumerate(specs):
         if extra_before is not None and i == extra_before[0]:
@@ -125,6 +127,9 @@ def check(case, ctx):
         for r in desc0['resources']:
             for f in r['schema']['fields']:
                 f['title'] = 'Title of ' + f['name']
+    if case.get('dotted_paths'):
+        for i, r in enumerate(desc0['resources']):
+            r['path'] = 'data.%d.csv' % (2019 + i)
     if case.get('primer') == 'use_titles':
         with quiet():
             Flow([{'p': 1, 'q': 'x'}], dataflows.set_type('p', title='P title'),
@@ -160,8 +165,23 @@ def check(case, ctx):
         replace = {p: dataflows.finalizer(cb)}
     else:
         replace = None
+    env_o = None
+    if case.get('primer') == 'older-dump' and obs['k'] in ('dump_to_path', 'dump_to_zip') and not replace and \
+            not any(s_['k'] == 'checkpoint' for s_ in specs):       # (a checkpoint would make the second run a resumed one)
+        # the observer's target already holds an older dump of the same shape (same sizes, other contents: the rows in
+        # reverse order); what it persists now is the stream of THIS run
+        env_o = gp.Env(ctx, 'o')
+        try:
+            run(desc0, [list(reversed(t)) for t in tables0], with_obs, ctx, 'o', case['seq'], env=env_o)
+        except Exception:
+            env_o = None
+        else:
+            env_o.n = 0
+            env_o.captures = {}
+            classes.append('over-an-older-dump')
     try:
-        rows, desc, stats, env = run(desc0, tables0, with_obs, ctx, 'o', case['seq'], extra_before=extra, replace=replace)
+        rows, desc, stats, env = run(desc0, tables0, with_obs, ctx, 'o', case['seq'], extra_before=extra, replace=replace,
+                                     env=env_o)
     except Exception as e:
         why = gp.data_dependent_rejection(e)
         if why:
